@@ -201,7 +201,50 @@ def ifswap(src):
     return out, len(taken)
 
 
-FN = dict(hoist=hoist, retvar=retvar, kwargs=kwargs, ifswap=ifswap)[mode]
+def condvar(src):
+    """`if <test>:` (single-line, not an elif) becomes `cond_cvN = <test>` / `if cond_cvN:`"""
+    tree = ast.parse(src)
+    lines = src.split("\n")
+    par = {c: p for p in ast.walk(tree) for c in ast.iter_child_nodes(p)}
+    edits = []
+    k = 0
+    for fn in [n for n in ast.walk(tree) if isinstance(n, (ast.FunctionDef, ast.AsyncFunctionDef))]:
+        for n in ast.walk(fn):
+            if not isinstance(n, ast.If) or isinstance(n.test, (ast.Name, ast.Constant)) or n.test.lineno != n.test.end_lineno or n.test.lineno != n.lineno:
+                continue
+            up = par.get(n)
+            if isinstance(up, ast.If) and n in up.orelse:
+                continue
+            if any(isinstance(x, (ast.NamedExpr, ast.Await, ast.Yield)) for x in ast.walk(n.test)):
+                continue
+            ln = lines[n.lineno - 1]
+            c0 = _char(lines, n.lineno, n.col_offset)
+            if ln[:c0].strip() or not ln[c0:].startswith("if "):
+                continue
+            t0, t1 = _char(lines, n.lineno, n.test.col_offset), _char(lines, n.lineno, n.test.end_col_offset)
+            rest = ln[t1:]
+            if not rest.lstrip(") ").startswith(":") or rest.count(":") != 1 and "#" not in rest:
+                continue
+            if rest.split(":", 1)[1].strip() and not rest.split(":", 1)[1].strip().startswith("#"):
+                continue   # one-line if
+            k += 1
+            # parentheses around the test written by the author: keep them with the test text
+            open_par = ln[c0 + 3:t0]
+            close_par = rest[: rest.index(":")]
+            edits.append((n.lineno, [f"{ln[:c0]}cond_cv{k} = {open_par}{ln[t0:t1]}{close_par}", f"{ln[:c0]}if cond_cv{k}:{rest.split(':', 1)[1]}"]))
+    if not edits:
+        return src, 0
+    for lineno, new in sorted(edits, reverse=True):
+        lines[lineno - 1:lineno] = new
+    out = "\n".join(lines)
+    try:
+        ast.parse(out)
+    except SyntaxError:
+        return src, 0
+    return out, len(edits)
+
+
+FN = dict(hoist=hoist, retvar=retvar, kwargs=kwargs, ifswap=ifswap, condvar=condvar)[mode]
 
 
 def one(rel):
